@@ -101,14 +101,16 @@ def gen_index(rng, xs, ctx):
         r = rng.random()
         if d == 0:
             items.append(["s", None, None, rng.choice([None, 1, -1, 2])])
-        elif r < 0.25:
+        elif r < 0.25 and (ctx["wild"] or not used_arr):
+            # (NumPy moves the index-array dimension to the front when an integer and an index array are separated by a
+            # slice; the library keeps it in place — an indexing-semantics matter of C02, kept out of the value reference)
             items.append(["i", rng.randint(-d, d - 1)])
         elif r < 0.8:
             a = rng.choice([None, None] + list(range(-d - 1, d + 2)))
             b = rng.choice([None, None] + list(range(-d - 1, d + 2)))
             c = rng.choice([None, 1, 1, 2, 3, -1, -1, -2])
             items.append(["s", a, b, c])
-        elif not used_arr:
+        elif not used_arr and (ctx["wild"] or not any(it[0] == "i" for it in items)):
             used_arr = True
             items.append(["a", [rng.randint(-d, d - 1) for _ in range(rng.randint(1, 3))]])
         else:
@@ -801,6 +803,25 @@ def gen_directed(rng, tier):
                         c["sweep"] = True
                         c["with_ref"] = True
                         cases.append(c)
+    np_ = _np()
+    for shape, axis in (((2, 20, 12), 0), ((3, 16, 10), 0), ((14, 3, 18), 1), ((20, 12), None)):
+        x = np_.array([rng.choice([1, 2, 3, -1]) if rng.random() < 0.7 else 0 for _ in range(int(np_.prod(shape)))]).reshape(shape)
+        for ca in ([[0], [1]] if len(shape) == 3 else [[0]]):
+            g = Gen(rng, wild=True)
+            g.narrow = 0.0
+            g.maxsize = 2000
+            g.add_spec(dense_spec(x.tolist(), 0, "gcxs", ca))
+            if axis is None:
+                ok = g.try_step("flatten", force_p={}, force_args=[0])
+                g.pool[-1]["ok"] = True
+                ok = ok and g.try_step("reshape", force_p={"shape": list(shape)}, force_args=[len(g.pool) - 1])
+            else:
+                ok = g.try_step(rng.choice(["sum", "max"]), force_p={"axis": axis, "keepdims": False}, force_args=[0])
+            if ok:
+                c = g.program()
+                c["sweep"] = True
+                c["with_ref"] = True
+                cases.append(c)
     canc = [[-3, 3, 0], [0, -1, -2], [2, -2, 0]]
     steps = [("sum", {"axis": 1, "keepdims": False}), ("sum", {"axis": None, "keepdims": False}), ("sum", {"axis": [0, 1], "keepdims": True}),
              ("nansum", {"axis": 1, "keepdims": False}), ("einsum_tr", {"s": "ij->i"}), ("einsum_tr", {"s": "ij->j"}),
@@ -1275,6 +1296,7 @@ def campaign(build, tier, seed, report, budget=1):
         where.append((ci, -1))
     bad = build.judge("c06_results", "From Verif Require Import Py Shape COO GCXS SArr Ctor C06Judge.", "c06_case", "judge_result", lits, chunk=400)
     seen_first = {}
+    diffs = []
     for idx, code in bad:
         ci, si = where[idx]
         c, r = cases[ci], res[ci]
@@ -1292,6 +1314,12 @@ def campaign(build, tier, seed, report, budget=1):
         seen_first[ci] = si
         st = c["steps"][si]
         tag(f"verdict/{code}")
+        if code == 4:
+            # every raw result up to here is canonical and pruned; the dense VALUE differs from NumPy.  That is a
+            # matter of the operation's own property (C01-C10), not of the canonical form: recorded, not a C06 violation
+            diffs.append({"op": st["op"], "step": si, "case": {"inputs": c["inputs"], "steps": c["steps"][:si + 1]},
+                          "impl": r["results"][si], "numpy": c["refs"][si], "replay_py": render(c, si)})
+            continue
         clause = None
         if st["op"] == "getitem" and code == 1 and r["results"][si].get("k") == "gcxs":
             kinds = [it[0] for it in st["p"]["idx"]]
@@ -1384,6 +1412,10 @@ def campaign(build, tier, seed, report, budget=1):
     except Exception as ex:  # noqa: BLE001
         site_info = {"error": str(ex)[-300:]}
     cov = report["coverage"]
+    cov["differential_mismatches_outside_c06"] = diffs[:10]
+    if diffs:
+        report["notes"].append(f"{len(diffs)} composed-program step(s) whose raw result is canonical but whose dense value differs from NumPy "
+                               f"(first: {diffs[0]['op']} {diffs[0]['case']['steps'][-1]['p']}): not a C06 matter, see coverage.differential_mismatches_outside_c06")
     cov["timing_s"] = {"implementation": round(t_impl - t_gen, 1), "coq_judges": round(time.time() - t_impl, 1)}
     cov["evaluations"] = len(lits) + len(clits) + len(klits) + len(qlits)
     cov["distinct_nontrivial"] = len(distinct) + len({vlib.digest(cases[i]) for i in cwhere}) + len({vlib.digest(cases[i]) for i in kwhere})
